@@ -346,7 +346,10 @@ fn make_state(d: &Desc, amd64: bool, addr: u64, rng: &mut Rng) -> St {
         st.gpr[1] = (st.gpr[1] & !0xff) | c;
     }
     if d.rep || d.repne || ["loop", "loope", "loopne", "jcxz", "jecxz", "jrcxz"].contains(&m) {
-        st.gpr[1] = if d.rep || d.repne { rng.below(5) } else { *rng.pick(&[0u64, 1, 2, 0x1_0000, 0x1_0000_0000, 0xffff_ffff_ffff_ffff]) };
+        st.gpr[1] = if d.rep || d.repne { rng.below(5) } else { *rng.pick(&[0u64, 1, 2, 0x1_0000, 0x1_0001, 0x1_0000_0000, 0x1_0000_0001, 0x1_0000_0002, 0xffff_ffff_0000_0001,
+                0x8000_0000_0000_0000, 0xffff_ffff_ffff_ffff]) };
+        // (count registers one above a power of the narrower widths: the decremented value is zero in its low 16 or 32
+        // bits only, so a guard that tests the wrong width is exposed)
         if !amd64 {
             st.gpr[1] &= 0xffff_ffff;
         }
